@@ -298,6 +298,54 @@ def model_run(cluster, tag, inputs, observed, timeout=3600, shard=4000):
     return out
 
 
+def coq_term(t):
+    """python nested list/int -> Gallina term of type T"""
+    if isinstance(t, int):
+        return 'I (%d)%%Z' % t
+    return 'L [' + '; '.join(coq_term(x) for x in t) + ']'
+
+
+def extraction_crosscheck(cluster, tag, samples, timeout=900):
+    """Re-evaluate sample requests with vm_compute inside coqc and compare with the extracted
+    OCaml model's answers.  samples: list of (input_str, observed_str, ocaml_answer_T)."""
+    if not samples:
+        return 0, 0, []
+    ext = open(os.path.join(COQ, cluster, 'Extract.v')).read()
+    mods = []
+    for m in re.finditer(r'From\s+FC\s+Require\s+(?:Import|Export)\s+((?:[A-Za-z_]\w*(?:\.[A-Za-z_]\w*)*\s*)+)\.(?:\s|$)', ext):
+        mods += m.group(1).split()
+    rc, out = sh(['make', 'Common/Show.vo'], 300, cwd=COQ)
+    if rc != 0:
+        return 0, len(samples), ['Common/Show.vo does not build: ' + out[-300:]]
+    os.makedirs(os.path.join(ROOT, 'target', 'tmp'), exist_ok=True)
+    path = os.path.join(ROOT, 'target', 'tmp', 'crosscheck_%s_%d_%d.v' % (cluster, tag, os.getpid()))
+    lines = ['From FC Require Import Common.T Common.Show %s.' % ' '.join(mods), 'Require Import List ZArith String.', 'Import ListNotations.', 'Open Scope string_scope.']
+    for inp, obs, _ in samples:
+        req = [tag, tfmt.parse(inp), tfmt.parse(obs.split(';')[0].strip())]
+        lines.append('Eval vm_compute in (show (main_T (%s))).' % coq_term(req))
+    open(path, 'w').write('\n'.join(lines) + '\n')
+    rc, out = sh(['coqc', '-Q', COQ, 'FC', '-noglob', path], timeout, cwd=os.path.dirname(path))
+    for ext_ in ('.vo', '.vok', '.vos', '.glob', '.v'):
+        try:
+            os.remove(path[:-2] + ext_)
+        except OSError:
+            pass
+    if rc != 0:
+        return 0, len(samples), ['vm_compute cross-check did not run: ' + out[-400:].replace('\n', ' | ')]
+    got = re.findall(r'=\s*"((?:[^"]|"")*)"', out.replace('\n', ' '))
+    agree = 0
+    bad = []
+    for (inp, obs, ans), g in zip(samples, got):
+        g = re.sub(r'\s+', ' ', g)
+        if g == tfmt.show(ans):
+            agree += 1
+        else:
+            bad.append('vm_compute %s <> extracted %s on input %s' % (g[:200], tfmt.show(ans)[:200], inp[:200]))
+    if len(got) != len(samples):
+        bad.append('vm_compute printed %d answers for %d requests' % (len(got), len(samples)))
+    return agree, len(samples), bad
+
+
 # ------------------------------------------------------------------------------------
 # known findings
 
@@ -368,6 +416,7 @@ class Outcome:
         self.distinct_nontrivial = 0
         self.dist = {}
         self.samples = []
+        self.xsamples = []         # (input, observed, extracted model answer) for the extraction cross-check
 
 
 def evaluate(spec, inputs, known, exe, timeout=3600):
@@ -397,6 +446,11 @@ def evaluate(spec, inputs, known, exe, timeout=3600):
         if inp not in seen and nontrivial(i_t, o_t):
             seen.add(inp)
             out.distinct_nontrivial += 1
+        if isinstance(raw, list) and len(inp) + len(o_clean) < 6000:
+            out.xsamples.append((inp, o_clean, raw))
+            if len(out.xsamples) > 64:      # keep the smallest requests only
+                out.xsamples.sort(key=lambda x: len(x[0]) + len(x[1]))
+                del out.xsamples[16:]
         if len(out.samples) < 3 and out.n % 97 in (1, 2, 3):
             out.samples.append({'input': inp[:400], 'observed': o_clean[:400], 'model': m[:400], 'pcheck': pc})
         if not pc:
@@ -540,6 +594,22 @@ def run_check(spec, tier, seed, replay=None):
             total.errors += [(prof,) + x for x in o.errors]
             if not total.samples:
                 total.samples = o.samples
+            if not total.xsamples:
+                total.xsamples = o.xsamples
+
+    # extraction cross-check: a sample of this run's requests re-evaluated by vm_compute in coqc
+    x_agree, x_n, x_bad = (0, 0, [])
+    if model_ok and total.xsamples and not spec.get('no_crosscheck'):
+        try:
+            xs = sorted(total.xsamples, key=lambda x: len(x[0]) + len(x[1]))
+            # not the degenerate smallest ones only: one small, the rest from the middle of the kept range
+            k = spec.get('crosscheck_n', 3)
+            pick = [xs[0]] + xs[len(xs) // 2:len(xs) // 2 + max(0, k - 1)] if len(xs) > k else xs
+            x_agree, x_n, x_bad = extraction_crosscheck(cluster, spec['tag'], pick[:k])
+        except Exception as e:      # noqa
+            x_bad = ['extraction cross-check crashed: %s' % e]
+        for b in x_bad:
+            problems.append('extraction cross-check: ' + b)
 
     exe = harness_exe(spec['crate'], profiles[0])
     violation = None
@@ -630,6 +700,7 @@ def run_check(spec, tier, seed, replay=None):
         'distribution': total.dist,
         'samples': total.samples or [{'note': 'no case was run', 'problems': problems[:3]}],
         'profiles': profiles,
+        'extraction_crosscheck': {'requests_reevaluated_by_vm_compute': x_n, 'agree_with_extracted_model': x_agree},
     }
     ev['coverage'] = cov
     ev['violations'] = 1 if violation else 0
